@@ -49,7 +49,7 @@ def machine_rule(ctx, tier):
                    detail={'trace': list(v['trace']), 'transition': v.get('transition')})
 
 
-def addcommands_rule(ctx):
+def addcommands_rule(ctx, r3='C04.R3', r4='C04.R4'):
     I = make_interp(ctx.model, modular=False)
     for direction, name in ((1, 'generateRetractCommands'), (-1, 'generateRecoverCommands')):
         st = State()
@@ -67,15 +67,15 @@ def addcommands_rule(ctx):
         st.heap[('EA', 'absoluteMode')] = I.atom(('fld', 'EA', 'absoluteMode'))
         res = I.run_method(st, 'RetractionState', name, Obj('R'), [Obj('POS')])
         for (s, v) in res:
-            ctx.instance('C04.R3', name)
-            ctx.instance('C04.R4', name)
+            ctx.instance(r3, name)
+            ctx.instance(r4, name)
             where = 'RetractionState._addCommands'
             if isinstance(v, Raised):
-                ctx.report('C04.R3', where, '%s raises' % name, repr(v))
+                ctx.report(r3, where, '%s raises' % name, repr(v))
                 continue
             cur = live_alts(s, s.heap[('EA', 'current')])
             if not all(isinstance(c, Num) and c.p == S('EA.current') for c in cur):
-                ctx.report('C04.R3', where, 'tracked E not restored (%s)' % name,
+                ctx.report(r3, where, 'tracked E not restored (%s)' % name,
                            'the temporary change of position.E_AXIS.current is not undone: the tracked extruder position drifts '
                            'by the retraction length every time commands are generated')
             elems = s.seqs.get(getattr(v, 'oid', None), ())
@@ -96,7 +96,7 @@ def addcommands_rule(ctx):
             for key, want, what in checks:
                 x = got.get(key)
                 if not (isinstance(x, Num) and x.p == want):
-                    ctx.report('C04.R4', where, '%s %s word (%s)' % (key[0], key[1], name),
+                    ctx.report(r4, where, '%s %s word (%s)' % (key[0], key[1], name),
                                '%s is %r, expected %r (file units of the native value; retract = set E above the target then move '
                                'down to it, recover = the reverse)' % (what, getattr(x, 'p', x), want))
 
